@@ -4,6 +4,8 @@
   One response line per request.
 -/
 import Cvss.Model.Cli
+import Cvss.Model.CliMsg
+import Cvss.Model.Prompts
 import Cvss.Model.Extract
 import Cvss.Gen.Unicode
 import Cvss.Spec.All
@@ -93,6 +95,31 @@ def handle (line : String) : String :=
         let items := os.map (fun o => (match o.ver with | .v2 => "2" | .v3 => "3" | .v4 => "4") ++ "=" ++ esc o.clean ++ "=" ++ esc o.vector)
         "ok\t" ++ ";".intercalate items
     | none => "bad-op"
+  | "D" :: v :: all :: nc :: answers =>    -- complete stdout of ask_interactively
+    match parseIVer v, answers.mapM decodeStr with
+    | some iv, some ans =>
+      let d := Prompts.dialogue iv (all = "1") (nc = "1") ans
+      "out\t" ++ esc d.1 ++ "\t" ++ (match d.2 with | some s => "result:" ++ esc s | none => "eof")
+    | _, _ => "bad-op"
+  | "LS" :: flags :: vec :: answers =>     -- complete stdout of cvss_calculator.main()
+    let has (c : Char) : Bool := flags.toList.contains c
+    let v : Option (Option Str) := if vec = "none" then some none else (decodeStr vec).map some
+    match v, answers.mapM decodeStr with
+    | some vv, some ans =>
+      let f : Cli.Flags := { f2 := has '2', f3 := has '3', f4 := has '4', all := has 'a',
+                             noColors := has 'n', json := has 'j', vector := vv }
+      match Prompts.stdout f ans with
+      | some s => "out\t" ++ esc s
+      | none => "crash"
+    | _, _ => "bad-op"
+  | ["M", v, s] =>     -- str(exception) of the constructor, "-" when it succeeds
+    match parseVer v, decodeStr s with
+    | some ver, some str => match Messages.constructMsg ver str with | some m => "msg\t" ++ esc m | none => "-"
+    | _, _ => "bad-op"
+  | ["MR", v, s] =>    -- str(exception) of from_rh_vector
+    match parseVer v, decodeStr s with
+    | some ver, some str => match Messages.fromRhMsg ver str with | some m => "msg\t" ++ esc m | none => "-"
+    | _, _ => "bad-op"
   | ["XF", s] =>      -- raw matches of the scanner model of the regex
     match decodeStr s with
     | some str => "ok\t" ++ "\u0001".intercalate ((Extract.findAll isDigitU str.length str).map esc)
@@ -113,7 +140,7 @@ def handle (line : String) : String :=
     | some vv, some ans =>
       let f : Cli.Flags := { f2 := has '2', f3 := has '3', f4 := has '4', all := has 'a',
                              noColors := has 'n', json := has 'j', vector := vv }
-      match Cli.main f ans with
+      match Cli.mainMsg f ans with
       | .lines ls => "lines\t" ++ "\\n".intercalate (ls.map esc)
       | .eof => "eof"
       | .crash => "crash"
